@@ -247,6 +247,12 @@ def _log_filtered_traceback(exc: BaseException) -> str:
     return ''.join(trace_exc.format())
 
 
+def _current_task_is_being_cancelled() -> bool:
+    """True if somebody requested the cancellation of the current task (as opposed to a CancelledError raised by user code)"""
+    task = asyncio.current_task()
+    return task is None or task.cancelling() > 0
+
+
 class EventBus:
     """
     Async event bus with write-ahead logging and guaranteed FIFO processing.
@@ -1089,6 +1095,10 @@ class EventBus:
                 except Exception:
                     # Error already logged and recorded in execute_handler
                     pass
+                except asyncio.CancelledError:
+                    if _current_task_is_being_cancelled():
+                        raise
+                    # raised by the handler itself, nobody cancelled us: recorded as that handler's error like any other
         else:
             # otherwise, execute handlers serially, wait until each one completes before moving on to the next
             for handler_id, handler in applicable_handlers.items():
@@ -1100,6 +1110,10 @@ class EventBus:
                         f'❌ {self} Handler {get_handler_name(handler)}#{str(id(handler))[-4:]}({event}) failed with {type(e).__name__}: {e}'
                     )
                     pass
+                except asyncio.CancelledError:
+                    if _current_task_is_being_cancelled():
+                        raise
+                    # raised by the handler itself, nobody cancelled us: recorded as that handler's error like any other
 
         # print('FINSIHED EXECUTING ALL HANDLERS')
 
@@ -1188,6 +1202,11 @@ class EventBus:
         except asyncio.CancelledError as e:
             # Cancel the monitor task on timeout too
             monitor_task.cancel()
+
+            if not _current_task_is_being_cancelled():
+                # nobody cancelled this task: the handler raised CancelledError itself - it is that handler's error
+                event.event_result_update(handler=handler, eventbus=self, error=e)
+                raise
 
             # Create a RuntimeError for timeout
             # TODO: figure out why it breaks when we try to switch to InterruptedError instead of asyncio.CancelledError
